@@ -215,6 +215,21 @@ class Tracer:
         l = place_local(p)
         proj = [e for e in place_proj(p) if e != "*"]
         if proj:
+            # precise case: field k of a local that is defined once by an aggregate -> operand k
+            ds0 = self.defs.get(l, [])
+            first = next((e for e in proj if isinstance(e, dict) and "f" in e), None)
+            lead = proj[:proj.index(first)] if first is not None else []
+            if first is not None and ds0 and not (1 <= l <= self.body.argc) and depth < 40 and all(
+                    d[1] != "T" and "agg" in d[2]["r"] and d[2]["r"]["agg"] in ("tuple", "adt")
+                    and first["f"] < len(d[2]["r"]["ops"]) for d in ds0) \
+                    and all(isinstance(e, dict) and "dc" in e for e in lead):
+                rest = proj[proj.index(first) + 1:]
+                inner = set()
+                for d in ds0:
+                    inner |= self.sources(d[2]["r"]["ops"][first["f"]], depth + 1, seen)
+                if not rest:
+                    return inner
+                return {("field", b, _freeze(rest)) for b in inner}
             # value projected out of a local: describe as field of the local's sources
             base = self.place_sources(l, depth, seen)
             out = set()
